@@ -66,6 +66,17 @@ def MemSizes.default : MemSizes :=
     rawMemDesc := 16, memory := 56, rawMemDesc64 := 16, memory64 := 56, rawMemInfo := 48, memInfo := 64,
     rawThreadName := 16, handleDesc := 120, objInfo := 16, rawThreadInfo := 64, threadInfo := 64 }
 
+/-- Executable form of `MemSizes.Bounded` (MdProofs.Lemmas.BytesSafe): every vector element is at most
+    four times its wire record, an object-info element at most 16 bytes. The allocation theorems
+    assume it; `MdModel.Bytes.handle` answers `bad-op` for sizes outside it. -/
+def MemSizes.bounded (ms : MemSizes) : Bool :=
+  decide (ms.rawThread ≤ 4 * 48) && decide (ms.thread ≤ 4 * 48) && decide (ms.rawModule ≤ 4 * 108) &&
+  decide (ms.module ≤ 4 * 108) && decide (ms.rawUnloaded ≤ 4 * 24) && decide (ms.unloaded ≤ 4 * 24) &&
+  decide (ms.rawMemDesc ≤ 4 * 16) && decide (ms.memory ≤ 4 * 16) && decide (ms.rawMemDesc64 ≤ 4 * 16) &&
+  decide (ms.memory64 ≤ 4 * 16) && decide (ms.rawMemInfo ≤ 4 * 48) && decide (ms.memInfo ≤ 4 * 48) &&
+  decide (ms.rawThreadName ≤ 4 * 12) && decide (ms.handleDesc ≤ 4 * 32) && decide (ms.objInfo ≤ 16) &&
+  decide (ms.rawThreadInfo ≤ 4 * 64) && decide (ms.threadInfo ≤ 4 * 64)
+
 /-- Slots of a `HashMap<u32, usize>` cost 16 bytes + 1 control byte; hashbrown rounds
     `cap * 8 / 7` up to a power of two: at most `2 * (8/7) * 17 < 40` bytes per requested
     element (+ a constant). Logged as an inexact allocation. -/
@@ -684,29 +695,32 @@ structure Dump where
   dirSteps : Nat
   deriving Repr
 
-/-- `Minidump::read` [5420] without the eager `MinidumpSystemInfo` parse (not modelled; its
-    failure is ignored by the code: `.ok()`). -/
-def readDump (b : Bytes) : Except Err Dump :=
+/-- The first part of `Minidump::read` [5421-5439]: the header is read little-endian; if the
+    signature only matches byte-swapped it is read again big-endian. -/
+def pickHeader (b : Bytes) : Except Err (Endian × Header) :=
   match readFields MINIDUMP_HEADER b 0 .little with
   | none => .error .MissingHeader
   | some v =>
     let h := Header.ofVals v
-    let pick : Except Err (Endian × Header) :=
-      if h.signature = MINIDUMP_SIGNATURE then .ok (.little, h)
-      else if swapBytes32 h.signature ≠ MINIDUMP_SIGNATURE then .error .HeaderMismatch
-      else
-        match readFields MINIDUMP_HEADER b 0 .big with
-        | none => .error .MissingHeader
-        | some v' =>
-          let h' := Header.ofVals v'
-          if h'.signature ≠ MINIDUMP_SIGNATURE then .error .HeaderMismatch else .ok (.big, h')
-    match pick with
-    | .error er => .error er
-    | .ok (e, h) =>
-      if h.version % 65536 ≠ MINIDUMP_VERSION then .error .VersionMismatch else
-      match readDirectory b e h.streamCount 0 h.dirRva [] with
-      | (.error er, _) => .error er
-      | (.ok streams, steps) => .ok ⟨e, h, streams, steps⟩
+    if h.signature = MINIDUMP_SIGNATURE then .ok (.little, h)
+    else if swapBytes32 h.signature ≠ MINIDUMP_SIGNATURE then .error .HeaderMismatch
+    else
+      match readFields MINIDUMP_HEADER b 0 .big with
+      | none => .error .MissingHeader
+      | some v' =>
+        let h' := Header.ofVals v'
+        if h'.signature ≠ MINIDUMP_SIGNATURE then .error .HeaderMismatch else .ok (.big, h')
+
+/-- `Minidump::read` [5420] without the eager `MinidumpSystemInfo` parse (not modelled; its
+    failure is ignored by the code: `.ok()`). -/
+def readDump (b : Bytes) : Except Err Dump :=
+  match pickHeader b with
+  | .error er => .error er
+  | .ok (e, h) =>
+    if h.version % 65536 ≠ MINIDUMP_VERSION then .error .VersionMismatch else
+    match readDirectory b e h.streamCount 0 h.dirRva [] with
+    | (.error er, _) => .error er
+    | (.ok streams, steps) => .ok ⟨e, h, streams, steps⟩
 
 /-- `get_raw_stream` [5600] -/
 def getRawStream (d : Dump) (b : Bytes) (ty : Nat) : Except Err Bytes :=
